@@ -305,6 +305,15 @@ theorem C07_paths_agree_partial (T : Table) (H : Hier) (s : Site) (hd : NoDangli
 example : C07.Faithful pinned [⟨1, none, []⟩, ⟨2, some 1, []⟩] ⟨.methCall, .other, .prot, some 2, some 2, 1, 1⟩ :=
   ⟨rfl, rfl, rfl, fun _ => rfl, fun h => by cases h⟩
 
+/-- **C07_spec_decision_procedure.** `Spec.Access.allowedB` (what the driver answers to `spec` requests, against
+which the harness holds its own Go oracle on every cell) decides `Spec.Access.allowed`. -/
+theorem C07_spec_decision_procedure (H : Hier) (hd : NoDangling H) (m : Mod) (caller : Option Name) (decl : Name)
+    (r : Bool) (h : allowedB H m caller decl = some r) : r = true ↔ allowed H m caller decl :=
+  allowedB_spec hd h
+
+example : allowedB [⟨1, none, []⟩, ⟨2, some 1, []⟩, ⟨3, none, []⟩] .prot (some 2) 1 = some true ∧
+    allowedB [⟨1, none, []⟩, ⟨2, some 1, []⟩, ⟨3, none, []⟩] .prot (some 3) 1 = some false := by decide
+
 /-! ## denied ⇒ no effect -/
 
 /-- **C07_denied_no_effect.** On every path, for every table: an access that does not succeed — wrong type
@@ -408,6 +417,27 @@ theorem C07_abstract_rules (W : Model.Inst.World) (n : Model.Inst.Name)
     (h : Model.Inst.instantiate W n = .ok) :
     ∃ c, Model.Inst.getClass W n = some c ∧ c.isAbstract = false ∧ c.abstr = [] ∧ Spec.Inst.Complete W c :=
   Proofs.Inst.instantiate_ok h
+
+/-- **C07_abstract_no_false_refusal.** The converse: when `new C` is refused for incompleteness, some
+non-abstract class in the chain of `C` really declares an abstract method itself or leaves a required method
+unimplemented. -/
+theorem C07_abstract_no_false_refusal (W : Model.Inst.World) (n : Model.Inst.Name) (c : Model.Inst.ACls)
+    (hc : Model.Inst.getClass W n = some c)
+    (h : Model.Inst.instantiate W n = .missing ∨ Model.Inst.instantiate W n = .selfAbstract) :
+    ∃ a, Spec.Inst.Anc W c a ∧ a.isAbstract = false ∧ (a.abstr ≠ [] ∨ ¬ Spec.Inst.Complete W a) := by
+  unfold Model.Inst.instantiate at h
+  rw [hc] at h
+  simp only [] at h
+  cases ha : c.isAbstract with
+  | true => rw [ha] at h; simp at h
+  | false =>
+    rw [ha] at h
+    simp only [Bool.false_eq_true, if_false] at h
+    obtain ⟨a, haa, hab, hv⟩ := Proofs.Inst.instChain_refusal _ c _ rfl h
+    refine ⟨a, haa, hab, ?_⟩
+    cases h with
+    | inl h1 => rw [h1] at hv; exact Or.inr (Proofs.Inst.validate_missing hv)
+    | inr h1 => rw [h1] at hv; exact Or.inl (Proofs.Inst.validate_selfAbstract hv)
 
 /-- **C07_abstract_refused.** An abstract class and a name that is not a class (an interface) are refused
 outright. -/
